@@ -327,9 +327,9 @@ class NetworkGraph(AbstractBaseIR):
                 discretize = False
                 v = self._process_delays(v, discretize=discretize)
 
-            # finalize edge delay
+            # finalize edge delay (an edge without delay reads the current value: slot 0 of a delay buffer)
             if d is None or np.sum(d) == 0:
-                d = [1] * n_slots
+                d = [0] * n_slots
             else:
                 d = self._process_delays(d, discretize=discretize)
 
@@ -660,7 +660,7 @@ class NetworkGraph(AbstractBaseIR):
 
             buffer_eqs = []
             for i, (d, sidx) in enumerate(zip(delays, source_idx)):
-                var_delayed = f"past({var}, {d})" if type(d) is float or d != 1 else var
+                var_delayed = f"past({var}, {d})" if d else var
                 if len(target_shape) < 1 or (len(target_shape) == 1 and target_shape[0] == 1):
                     buffer_eqs.append(f"{var}_buffered{buffer_id} = {var_delayed}")
                 else:
